@@ -235,6 +235,37 @@ var _ = kessoku.Inject[*App]("InitApp",
 	kessoku.Async(kessoku.Provide(NewErr)), kessoku.Provide(NewApp))
 ''')
     out.append(("types-named-like-hard-coded-locals", ["./hl/"], ["hl/k.go"]))
+    # (4) several values of one type class inside one injector: a provider *returns* a context.Context (an application
+    #     root context) while the injector also gets its own context parameter (Async); the same with error-typed and
+    #     pointer-to-context values
+    d = os.path.join(root, "cx")
+    os.makedirs(d, exist_ok=True)
+    open(os.path.join(d, "k.go"), "w").write('''package cx
+
+import (
+	"context"
+
+	"github.com/mazrean/kessoku"
+)
+
+type Root struct{ n int }
+type Svc struct{ n int }
+type Other struct{ n int }
+type App struct{ n int }
+
+func NewRoot() *Root                                  { return &Root{} }
+func NewBase(r *Root) context.Context                 { return context.Background() }
+func NewSvc(ctx context.Context) (*Svc, error)        { return &Svc{}, nil }
+func NewOther(r *Root) (*Other, error)                { return &Other{}, nil }
+func NewApp(ctx context.Context, s *Svc, o *Other) *App { return &App{} }
+
+var _ = kessoku.Inject[*App]("InitApp",
+	kessoku.Provide(NewRoot), kessoku.Provide(NewBase), kessoku.Async(kessoku.Provide(NewSvc)), kessoku.Async(kessoku.Provide(NewOther)), kessoku.Provide(NewApp))
+
+var _ = kessoku.Inject[*App]("InitApp2",
+	kessoku.Provide(NewRoot), kessoku.Provide(NewBase), kessoku.Async(kessoku.Provide(NewSvc)), kessoku.Async(kessoku.Provide(NewOther)), kessoku.Provide(NewApp))
+''')
+    out.append(("context-provided-and-injected", ["./cx/"], ["cx/k.go"]))
     if rng is not None:
         out += render_multi(root, rng, ncases)
     return out
